@@ -12,8 +12,8 @@ CLAIMED = {
          'ONLY the throttle / lock-out clause: the admissibility gate of handle_announce (manifest, shares, PoW, version, announcer identity) is not encoded'),
  'C23': ('Bounded symbolic check of the upload-slot bookkeeping (member functions lifted from the current core/Node.cpp onto a partial Node): over every sequence of 3 (quick) / 4 (thorough) requests, ticks and acknowledgements with symbolic limits, peers, chunks and clock, uploads stay within the overall and per-peer limits and each peer\'s slot counter equals its uploads in flight.',
          'dispatch_upload (lookup, signing, send, negative ack) is cut to an arbitrary outcome: the negative-acknowledgement clause is not decided; limits 0..2, two peers x two chunks'),
- 'C24': ('Bounded symbolic check of fetch-scheduling kernels (lifted from the current core/Node.cpp onto a partial Node): retry delay = initial back-off doubled per attempt up to the maximum with the documented fallbacks, nothing scheduled once the attempt limit is exhausted; per-peer in-flight counter equals outstanding requests and never exceeds the limit over every pending/dispatch/clear sequence.',
-         'schedule_assigned_fetch / process_pending_fetches / dispatch_pending_fetch are not encoded: re-announce, manifest-expiry and held-locally clauses outside the claim'),
+ 'C24': ('Bounded symbolic check of fetch-scheduling kernels (lifted from the current core/Node.cpp onto a partial Node): retry delay = initial back-off doubled per attempt up to the maximum with the documented fallbacks, nothing scheduled once the attempt limit is exhausted; per-peer in-flight counter equals outstanding requests and never exceeds the limit over every pending/dispatch/clear sequence and over every announce / dispatch / arrival sequence through the lifted schedule_assigned_fetch and dispatch_pending_fetch (re-announcements included).',
+         'process_pending_fetches (retry timing, manifest expiry, held-locally drop, provider refresh) is not encoded: those clauses are outside the claim; transport sends are arbitrary outcomes'),
  'C17': ('Bounded symbolic check of the manifest codec: base64 pair vs RFC 4648 for every byte string of the listed lengths; decode_manifest(encode_manifest(m)) == m (up to whole-second expiry, empty scheme -> transport) for manifests with symbolic contents and the listed shapes; refusal exactly at the representability limits of every counted list and length-prefixed string.',
          'round-trip shapes and string lengths bounded as listed in the evidence; binary-layer jobs abstract base64 as the identity (discharged by the base64 jobs); std::map primitives modelled'),
  'C18': ('Bounded symbolic check that manifest decoding is total: base64 layer on every string of the listed lengths, URI prologue, and the binary decoder on arbitrary exact-size payloads of the listed lengths for every format version: no out-of-bounds access, no flagged-arithmetic overflow (expiry conversion included), only std::invalid_argument escapes.',
